@@ -25,7 +25,9 @@ import ZCV.Model.Timedelta
 import ZCV.Model.LogFormat
 import ZCV.CodecHost
 import ZCV.Model.History
-/-! Line-protocol driver: one request per line, one answer per line. Imports Spec + Model + Gen only. -/
+/-! Line-protocol driver: one request per line, one answer per line. Imports Spec + Model + Gen only (plus the lemma files that
+    hold executable definitions the models are stated with: `HandlersCall`, and through `Model/History` the `LoadReq` / `addStep` /
+    `runLines` definitions of `Lemmas/Slots*`, `IncludeAux`). -/
 open ZCV ZCV.SExp ZCV.Codec ZCV.Cfg
 
 def assocFn (kvs : List SExp) : Str → Option Str := fun k =>
